@@ -6,9 +6,9 @@ From Octo Require Import Expr.
 Lemma tv_val_to_tv v : is_tv v = true -> tv_val (to_tv v) = v.
 Proof. destruct v; try discriminate; simpl; auto. destruct b; reflexivity. Qed.
 
-Lemma has_type_null_admits t : has_type VNull t = true -> admits_null t = true.
+Lemma has_type_null_allows t : has_type VNull t = true -> allows_null t = true.
 Proof.
-  destruct t as [|ks]; simpl; auto. unfold admits_null, is_rel. simpl. intros H.
+  destruct t as [|ks]; simpl; auto. unfold allows_null, is_rel. simpl. intros H.
   unfold K_NULL. rewrite H. reflexivity.
 Qed.
 
@@ -129,7 +129,7 @@ Qed.
 
 (* ---------- null checks ---------- *)
 
-(* a NULL among the arguments, every argument value admitted by its static type: the check of a Strict
+(* a NULL among the arguments, every argument value allowed by its static type: the check of a Strict
    descriptor fires *)
 Lemma null_check_hits : forall tys vs pre,
   Forall2 (fun v t => has_type v t = true) vs tys -> In VNull vs ->
@@ -142,10 +142,10 @@ Proof.
     assert (Hlen : S (length pre) = length (pre ++ [v])) by (rewrite app_length; simpl; lia).
     destruct (is_null v) eqn:Hn.
     + destruct v; try discriminate Hn.
-      rewrite (has_type_null_admits _ Hv). simpl.
+      rewrite (has_type_null_allows _ Hv). simpl.
       rewrite nth_error_app2 by lia. rewrite Nat.sub_diag. simpl. reflexivity.
     + assert (Hin' : In VNull vs') by (destruct Hin as [E|]; [subst v; discriminate Hn | assumption]).
-      destruct (admits_null t).
+      destruct (allows_null t).
       * simpl. rewrite nth_error_app2 by lia. rewrite Nat.sub_diag. simpl. rewrite Hn.
         rewrite Happ, Hlen. apply IH; assumption.
       * rewrite Happ, Hlen. apply IH; assumption.
@@ -161,7 +161,7 @@ Proof.
   - destruct vs as [|v vs']; [discriminate L|]. simpl in L. inversion F as [|? ? Hv F']; subst. simpl.
     assert (Happ : pre ++ v :: vs' = (pre ++ [v]) ++ vs') by (rewrite <- app_assoc; reflexivity).
     assert (Hlen : S (length pre) = length (pre ++ [v])) by (rewrite app_length; simpl; lia).
-    destruct (admits_null t).
+    destruct (allows_null t).
     + simpl. rewrite nth_error_app2 by lia. rewrite Nat.sub_diag. simpl. rewrite Hv.
       rewrite Happ, Hlen. apply IH; [lia|assumption].
     + rewrite Happ, Hlen. apply IH; [lia|assumption].
